@@ -124,6 +124,18 @@ theorem v2_cut_any_choices (H : HashFn) (o : ReadOpts) (seek : Bool) (choice : N
   rw [hv1] at hrun
   simpa [sectionsBytes] using hrun
 
+/-- **Next and SkipNext apply the same section limit**: whenever the length prefix ahead announces more
+    than `MaxAllowedSectionSize`, both calls are refused with the too-large error, whatever the source
+    kind and whatever follows — so an over-limit section ends every history at the same place. -/
+theorem same_limit_for_next_and_skip (H : HashFn) (o : ReadOpts) (br : BR)
+    (h : ldReadSize o.zeroEOF o.maxSection br.rest = .error .tooLarge) :
+    br.next H o = .error .tooLarge ∧ br.skipNext o = .error .tooLarge := by
+  constructor
+  · unfold BR.next nextBlock readNode ldRead
+    rw [h]
+  · unfold BR.skipNext
+    rw [h]
+
 /-- The Offset a skipped block reports is the offset an index records for it (C03's `withOffsets`). -/
 theorem skip_offset_is_index_offset (choice : Nat → Bool) (base : Nat) :
     ∀ (bs : List Block) (i off : Nat) (m : BlockMeta),
